@@ -11,9 +11,10 @@ def run_all(facts):
     from .rules import r_flush, r_cursor, r_clone_flow
     cg = CallGraph(facts)
     out = {}
-    out['r_flush'] = r_flush.run(facts)
-    out['r_cursor'] = r_cursor.run(facts)
-    out['r_clone_flow'] = r_clone_flow.run(facts, cg)
+    from .rules.r_more import _guard
+    out['r_flush'] = _guard('r_flush', lambda f_, c_: r_flush.run(f_), facts, cg)
+    out['r_cursor'] = _guard('r_cursor', lambda f_, c_: r_cursor.run(f_), facts, cg)
+    out['r_clone_flow'] = _guard('r_clone_flow', r_clone_flow.run, facts, cg)
     from .rules import r_more
     out.update(r_more.run(facts, cg))
     # position independent keys: no impl-block or closure ordinals in what identifies a violation
